@@ -27,6 +27,7 @@ class Ref(ast.NodeVisitor):
         self.dotted = dotted_tops
         self.stack = ['module']
         self.out = []
+        self.skipped = set()
 
     def kind(self):
         return self.stack[-1]
@@ -37,6 +38,9 @@ class Ref(ast.NodeVisitor):
         if name.startswith('_'):
             return
         k = self.kind()
+        if k == 'exempt':
+            self.skipped.add(name)     # a function that calls locals(): its own locals are not compared (the statement is silent)
+            return
         if k in ('func', 'method'):
             if what == 'param' and k == 'method':
                 return
@@ -112,11 +116,14 @@ class Ref(ast.NodeVisitor):
             self.visit(d)
         for d in n.args.defaults + [x for x in n.args.kw_defaults if x]:
             self.visit(d)
+        # a scope that calls the builtin locals() uses all of its locals (supp/linter.py: "locals() marks every local of the scope as used")
+        body = n.body if isinstance(n.body, list) else [n.body]
+        if calls_locals(body):
+            k = 'exempt'
         self.stack.append(k)
         a = n.args
         for arg in a.posonlyargs + a.args + a.kwonlyargs + [x for x in (a.vararg, a.kwarg) if x]:
             self.bind(arg.arg, 'param')
-        body = n.body if isinstance(n.body, list) else [n.body]
         for s in body:
             self.visit(s)
         self.stack.pop()
@@ -137,6 +144,19 @@ class Ref(ast.NodeVisitor):
         for s in n.body:
             self.visit(s)
         self.stack.pop()
+
+
+def calls_locals(body):
+    """does this function body (not nested functions/classes) contain a call of the bare name locals?"""
+    stack = list(body)
+    while stack:
+        n = stack.pop()
+        if isinstance(n, (ast.FunctionDef, ast.AsyncFunctionDef, ast.Lambda, ast.ClassDef)):
+            continue
+        if isinstance(n, ast.Name) and n.id == 'locals' and isinstance(n.ctx, ast.Load):
+            return True
+        stack.extend(ast.iter_child_nodes(n))
+    return False
 
 
 def expected_and_got(text, fn):
@@ -162,10 +182,10 @@ def expected_and_got(text, fn):
     for x in L:
         if x[0] in ('W01', 'W02'):
             name = x[1].split(': ')[1]
-            if name not in reads and name not in excluded:
+            if name not in reads and name not in excluded and name not in r.skipped:
                 got.append((x[0], name))
     dups = [k for k, v in collections.Counter((x[0], x[1], x[2], x[3]) for x in L).items() if v > 1]
-    return collections.Counter(r.out), collections.Counter(got), dups, L
+    return collections.Counter(o for o in r.out if o[1] not in r.skipped), collections.Counter(got), dups, L
 
 
 def check_text(text, fn, label, part):
@@ -263,6 +283,25 @@ def gen_cases(tier):
                 t = gen_module(b, s, sh)
                 if t:
                     yield ('%s/%s/%s' % (b, s, sh), t)
+    # the same cases next to a function that calls locals() (the exemption is for THAT function's locals only),
+    # and with the binding made in both branches of an if (a conditionally bound name)
+    for b in BINDINGS:
+        for s_ in ('module', 'function', 'class', 'method'):
+            t = gen_module(b, s_, 'plain')
+            if not t:
+                continue
+            yield ('%s/%s/plain+locals-elsewhere' % (b, s_), t + 'def uses_locals(q=1):\n    return locals()\n')
+            if s_ == 'function':
+                yield ('%s/%s/plain+locals-here' % (b, s_), t + '    return locals()\n')
+    for b in ('assign', 'import-as', 'from-import', 'def', 'with-target'):
+        for s_ in ('module', 'function', 'class', 'method', 'nested-function'):
+            head, ind = SCOPES[s_]
+            pad = '    ' * ind
+            body = [pad + 'if C0:'] + [pad + '    ' + l.replace('{N}', 'nm') for l in BINDINGS[b]] + [pad + 'else:'] + [pad + '    ' + l.replace('{N}', 'nm') for l in BINDINGS[b]]
+            t = 'C0 = 1\n' + '\n'.join(list(head) + body) + '\n'
+            yield ('cond:%s/%s' % (b, s_), t)
+            yield ('cond:%s/%s+locals-elsewhere' % (b, s_), t + 'def uses_locals(q=1):\n    return locals()\n')
+            yield ('cond:%s/%s+locals-in-nested' % (b, s_), t + pad + 'def inner_locals():\n' + pad + '    return locals()\n' if ind else t + 'def inner_locals():\n    return locals()\n')
     # __future__ import (module level only) and method parameters
     yield ('future-import/module/plain', 'from __future__ import division\n')
     for sh in SHAPES:
